@@ -236,6 +236,16 @@ def _printed_tuples(out):
     return res
 
 
+def _printed_tuples_any(out, tag):
+    """Like _printed_tuples for an arbitrary tag string: list of (tag, [elements after the tag])."""
+    res = []
+    for m in re.finditer(r'<<\s*"' + re.escape(tag) + '"', out):
+        end = out.find(">>", m.start())
+        text = " ".join(out[m.start():end + 2].split())
+        res.append((tag, _tuple(text)))
+    return res
+
+
 def _tuple(line):
     """Parse a TLC-printed tuple of strings / numbers, e.g. <<"FAIL", 12, "x">>."""
     body = line.strip()[2:-2]
